@@ -44,16 +44,31 @@ RULE = ("(1) converter trees: every tree of depth <= 1 over 13 leaf kinds (plain
         "Decimal, Fraction; and numeric == matches) and non-ASCII strings (== against the listed "
         "elements is the oracle), every input also through optional(pipe(to_bool)) in __init__ and on "
         "assignment, and the two tuples extracted "
-        "from the source with ast.  (3) filters: what-subsets of a 13-item universe (types incl. "
-        "bool/int and a subclass pair, names, equal-but-distinct and same-name-different Attributes, "
-        "junk) - all subsets in the thorough tier, all of size <= 2 plus random ones in quick - each "
-        "probed on all 35 (attribute, value) pairs, plus shuffled/duplicated spellings.  (4) cmp_using: "
-        "all 64 configurations x 23 value pairs (same class, unrelated classes, identical object, and "
-        "subclass-related classes in both operand orders: bool/int, float/float-subclass, str/str-subclass) with honest functions, plus random behaviours (constant True/False/NotImplemented, "
-        "flipped, negated); all six operators called as dunder methods.  distinct = distinct case "
+        "from the source with ast when it has that shape.  (3) filters: what-subsets of a 13-item "
+        "core universe (types incl. bool/int and a subclass pair, names, equal-but-distinct and "
+        "same-name-different Attributes) plus 8 items that are a type / a name / an Attribute only by "
+        "isinstance (an Enum class, an ABC and its concrete subclass, a class with a custom "
+        "metaclass; str-subclass and StrEnum names; an Attribute subclass instance) and junk: all "
+        "subsets of size <= 2 over the 21 items and all subsets of the 8 in both tiers, all 8192 core "
+        "subsets in the thorough tier, random ones; each probed on all 60 (attribute, value) pairs "
+        "(values incl. an Enum member, an ABC-subclass instance, a custom-metaclass instance), plus "
+        "shuffled/duplicated spellings.  (4) cmp_using: all 64 configurations x 23 value pairs (same "
+        "class, unrelated classes, identical object, subclass-related classes in both operand orders: "
+        "bool/int, float/float-subclass, str/str-subclass) x {total honest functions, partial "
+        "functions that raise on two values of different classes}, plus random behaviours (constant "
+        "True/False/NotImplemented, flipped, negated, partial); every supplied function is "
+        "instrumented; all six operators are called as dunder methods and for each the result (or the "
+        "propagated exception) AND the exact call log (function, first argument, second argument, in "
+        "order) are compared with the model.  distinct = distinct case  "
         "literal; non-trivial = converter tree with at least one combinator, any to_bool input, a "
         "non-empty what, a configuration with at least one function")
 EXTRA_TRUSTED = [
+    "harness/translate_c19.py: the translator from a small Python subset to Gallina (Gen/C19_tie.v) for "
+    "_cmp._make_operator.method/_is_comparable_to/_check_same_type/cmp_using, filters._split_what/"
+    "include_/exclude_, converters.to_bool and the optional/default_if_none/pipe closures; the meaning "
+    "it gives to its primitives (traced call of a supplied function, isinstance vs exact class of a "
+    "listed item, `in` over a tuple literal, `is None`) is trusted, the equality with the model is "
+    "proved in C19/Tie.v",
     "CPython's functools.total_ordering (_convert table and the twelve _x_from_y functions) and "
     "the ==/!= operator protocol (reflected method, identity fallback) are re-stated by hand in "
     "C19/ModelCmp.v and tied to CPython only through the cmp_using correspondence cases",
@@ -71,6 +86,20 @@ ASSUMPTIONS = [
     "cmp_using: both operands are instances of the generated class; supplied functions answer "
     "True, False or NotImplemented",
 ]
+
+
+
+def pre_build():
+    # Gen/C19_tie.v is regenerated from the current source text so that a fresh checkout builds
+    from . import translate_c19
+    translate_c19.regenerate()
+
+
+def translated_tie():
+    """Tie by translation: (status per translated function, Coq target with the tie lemmas)."""
+    from . import translate_c19
+    return translate_c19.regenerate(), "theories/C19/Tie.vo"
+
 
 # ======================================================================================
 # (1) converter trees
